@@ -2,7 +2,7 @@
 import re
 
 from .common import (fkey, where, short, arg_is_local, enclosing_loop_next, follow_value, block_line, terminal_field, callback_invocations,
-                     awaited_value_local, SERVER, CORE)
+                     awaited_value_local, read_body_loop_exits, SERVER, CORE)
 from ..facts import op_place, op_const, AnchorLost, is_test_body
 from .. import flow
 
@@ -445,6 +445,8 @@ def r6_transport_agreement(ctx):
         sn["ws"] = _sniffer(F, tasks[0], tr)
     sn["http"] = _sniffer(F, rb, tr)
     R.check(sn.get("ws") is not None and sn.get("http") is not None and sn["ws"] == sn["http"], "C01.R6", "sniffers-agree", "WS and HTTP prefix sniffers agree: %s" % (sn.get("ws"),), "the WS and HTTP prefix sniffers differ: ws=%s http=%s" % (sn.get("ws"), sn.get("http")), None)
+    # the HTTP transport hands the *whole* body to handle_rpc_call (the WS transport hands the whole frame)
+    read_body_loop_exits(F, R, "C01.R6", tr)
     for k, v in sn.items():
         if v is None:
             continue
